@@ -391,6 +391,28 @@ def systematic_signature_cases(signed):
 	return cases
 
 
+def systematic_head_bit_cases(signed):
+	"""For EVERY signed transaction of the stream: each bit of its version and network members (and, for Symbol aggregates, which sign a
+	52-byte head, each bit of the type member's low byte): covered bits whose change must make verification fail, whatever constants
+	the transaction's class declares."""
+	cases = []
+	for case, out in signed:
+		if 'error' in out or out.get('verifies') != 'T':
+			continue
+		data = bytearray.fromhex(case['tx'])
+		sig_at, key_at = signature_offsets(case['net'])
+		data[sig_at:sig_at + 64] = bytes.fromhex(out['signature'])
+		data[key_at:key_at + 32] = bytes.fromhex(out['public'])
+		# Symbol: version at 108, network at 109, type at 110..111; NEM: type 0..3, version byte 4, network byte 7
+		offsets = [108, 109] if case['net'] == 'sym' else [4, 7]
+		for offset in offsets:
+			for bit in range(8):
+				cases.append({
+					'kind': 'verify', 'net': case['net'], 'network': case['network'], 'what': 'tx-bit', 'tx_kind': case['tx_kind'],
+					'signed_tx': bytes(data).hex(), 'bit': 8 * offset + bit, 'original_payload': out['payload']})
+	return cases
+
+
 def signature_offsets(net):
 	"""(signature offset, signer offset) in a serialized transaction."""
 	return (8, 72) if net == 'sym' else (52, 16)
@@ -1280,7 +1302,7 @@ def run(check, unrecognised):
 		signed = list(zip(sign_cases, outs))
 
 		# perturbations
-		verify_cases = gen_verify_cases(rng, signed, n_verify) + systematic_signature_cases(signed)
+		verify_cases = gen_verify_cases(rng, signed, n_verify) + systematic_signature_cases(signed) + systematic_head_bit_cases(signed)
 		verdicts = [impl_verify(case) for case in verify_cases]
 		model_verdicts = model_verify(verify_cases)
 		for case, out, model in zip(verify_cases, verdicts, model_verdicts):
@@ -1338,7 +1360,8 @@ def oracle_only(check):
 		problem = oracle_sign(case, out)
 		if problem:
 			check.fail(signature_of(case), problem, {'case': case, 'observed': out, 'how': 'run.py replay <this file>'})
-	verify_cases = gen_verify_cases(rng, list(zip(sign_cases, outs)), 200) + systematic_signature_cases(list(zip(sign_cases, outs)))
+	verify_cases = gen_verify_cases(rng, list(zip(sign_cases, outs)), 200) + systematic_signature_cases(list(zip(sign_cases, outs))) \
+		+ systematic_head_bit_cases(list(zip(sign_cases, outs)))
 	for case in verify_cases:
 		out = impl_verify(case)
 		check.case(f'verify:{case["net"]}:{case["what"]}', repr(sorted(case.items())))
